@@ -210,6 +210,83 @@ class TaskController(Target):
         return []
 
 
+class MonitorIteration(Target):
+    """One pass of the `while continueAction:` loop of monitor.CreateMonitor.Monitor (the statements of its try-block,
+    extracted as a slice).  Once the cancel event is seen set, the action runs at most ONE more time -- with the
+    argument True, and only when a last action was asked for -- and continueAction becomes False, so the loop ends; while
+    the event is not set the action runs with the argument False.  (The engine's kill() sets this event; the last call
+    is what marks the repeating kernel as completed.)"""
+    prop = 'C13'
+    name = 'monitor.CreateMonitor.Monitor[iteration]'
+    file = 'python/experiment/runtime/monitor.py'
+    qualname = 'CreateMonitor.Monitor'
+    slice = ('if cancelEvent is not None and cancelEvent.is_set():', None, False)
+    trusted = ["threading.Event.is_set / wait, time.sleep", "the polling interval function answers 'execute now' after finitely "
+               "many polls (<= 2 explored)"]
+    assumptions = ["the statements of the loop's try-block; exceptions leaving them are caught and logged by the enclosing "
+                   "handler, which does not touch continueAction (read from the source, not verified)"]
+
+    def setup(self, c):
+        g = c.ghost
+        g['actions'] = []
+        g['polls'] = 0
+        has_event = c.one_of('has_cancel_event', [True, False])
+        set_at = c.one_of('cancel_set', ['at-entry', 'while-waiting', 'never']) if has_event else 'never'
+        last_action = c.one_of('lastAction', [True, False])
+        fails = c.one_of('action', ['ok', 'filesystem-error', 'other-error'])
+        polls_needed = c.choice('polls_until_interval_elapsed', 3)
+        dynamic = c.one_of('interval_is_a_function', [True, False])
+        state = {'waiting': False}
+
+        def is_set(c):
+            return set_at == 'at-entry' or (set_at == 'while-waiting' and state['waiting'] and g['polls'] >= 1)
+
+        def action(c, last):
+            g['actions'].append(last)
+            if fails == 'filesystem-error':
+                c.raise_(experiment.model.errors.FilesystemInconsistencyError, 'fs', IOError('stale'))
+            if fails == 'other-error':
+                c.raise_(RuntimeError, 'boom')
+        action_ext = Extern('action', action)
+        action_ext.__name__ = 'EngineTaskController'
+
+        def interval_fn(c, seconds):
+            state['waiting'] = True
+            g['polls'] += 1
+            return g['polls'] > polls_needed
+        event = Obj('event', is_set=Extern('Event.is_set', is_set), wait=Extern('Event.wait', lambda c, t: None)) if has_event else None
+        env = {'cancelEvent': event, 'lastAction': last_action, 'action': action_ext, 'name': 'Monitor (x)',
+               'interval': Extern('interval', interval_fn) if dynamic else 5.0, 'polling_time': 1.0,
+               'continueAction': True, 'executeAction': True, 'errors_with_filesystem': c.one_of('fs_error_budget', [5, 0])}
+        return State(kwargs=env, set_at=set_at, last_action=last_action, fails=fails, has_event=has_event, dynamic=dynamic)
+
+    def externs(self, c, st):
+        import datetime as _dt
+        return {'time.sleep': Extern('time.sleep', lambda c, t: None),
+                'datetime.datetime': Obj('datetime-class', now=Extern('now', lambda c: T0)),
+                'traceback.format_exc': Extern('format_exc', lambda c: 'tb'),
+                'sys.exc_info': Extern('sys.exc_info', lambda c: (None, None, None))}
+
+    def ensures(self, c, st, out):
+        acts = c.ghost['actions']
+        env = st.env if hasattr(st, 'env') else {}
+        cl = [('the-action-runs-at-most-once-per-pass', len(acts) <= 1)]
+        if st.set_at == 'at-entry':
+            cl += [('after-cancel-the-action-runs-only-as-last-action', acts == ([True] if st.last_action else [])),
+                   ('after-cancel-the-loop-ends', env.get('continueAction') is False or out.kind == 'raise' and st.fails != 'ok')]
+            if out.kind != 'raise':
+                cl.append(('after-cancel-the-monitor-does-not-wait', c.ghost['polls'] == 0))
+        else:
+            cl += [('before-cancel-the-action-runs-as-a-regular-action', acts == [False]),
+                   ('before-cancel-the-loop-continues', env.get('continueAction') is True or out.kind != 'return')]
+        if out.kind == 'raise':
+            cl.append(('only-a-failing-action-raises', st.fails != 'ok'))
+        return cl
+
+    def cross_compare(self, *a):
+        return []
+
+
 class ScheduleNextInstance(Target):
     prop = 'C13'
     name = 'RepeatingEngine.run.schedule_next_instance'
@@ -306,5 +383,5 @@ class BoundedStop(Lemma):
                 ('no-retries-left-means-kill', Implies(And(step, pd, budget0 == r0 + 1, budget0 == 1), killed))]
 
 
-TARGETS = [TaskController(), ScheduleNextInstance(), NotifyProducersFinished()]
+TARGETS = [TaskController(), ScheduleNextInstance(), NotifyProducersFinished(), MonitorIteration()]
 LEMMAS = [BoundedStop()]
